@@ -39,7 +39,7 @@ def _strategy():
                 if kind == "bc2":
                     m["pf"], m["ps"] = draw(st.integers(240, 255)), draw(st.integers(0, 255))
                 else:
-                    m["pf"] = draw(st.integers(0, 239).filter(lambda x: x not in N.RESERVED_PF))
+                    m["pf"] = draw(N.pdu1_format(m["dp"]))
                     if kind == "p2p":
                         others = [(i2, j) for i2 in range(ns) if i2 != si for j in range(len(base["stacks"][i2]["cas"]))]
                         m["dst"] = list(draw(st.sampled_from(others)))
